@@ -879,6 +879,8 @@ class SessionRig(object):
     def __init__(self):
         from kmip.services.server import engine as eng
         from kmip.core import policy as oppolicy
+        import keygen_cap
+        keygen_cap.install()
         self.dir = tempfile.mkdtemp(prefix="vcodec")
         self.engine = eng.KmipEngine(policies=copy.deepcopy(oppolicy.policies),
                                      database_path=os.path.join(self.dir, "db.sqlite"))
